@@ -91,6 +91,9 @@ class Operation(ElementBase):
         surface or an intersection of multiple surface. WIP according to
         https://github.com/OpenFOAM/OpenFOAM-10/blob/master/src/meshTools/searchableSurfaces/searchableSurfacesQueries/searchableSurfacesQueries.H
         """
+        if not 0 <= corner < 8:
+            raise ValueError(f"Corner must be an index to operation's points (0...7), got {corner}")
+
         # bottom and top faces define operation's points
         if corner > 3:
             self.top_face.points[corner - 4].project(label)
@@ -100,6 +103,9 @@ class Operation(ElementBase):
     def project_edge(self, corner_1: int, corner_2: int, label: ProjectToType) -> None:
         """Replace an edge between given corners with a Projected one
         or add geometry to an already projected edge"""
+        if not (0 <= corner_1 < 8 and 0 <= corner_2 < 8):
+            raise ValueError(f"Corners must be indexes to operation's points (0...7), got {corner_1}-{corner_2}")
+
         # decide where the required edge sits
         loc = edge_map[corner_1][corner_2]
         corner = loc.start_corner
